@@ -216,8 +216,6 @@ def shape(v):
     rexw = 0x48 <= code[k] <= 0x4F
     c = G.shift_count(v)
     raw = (code[-1] if meta["shift"] == "imm" else 1 if meta["shift"] == "one" else v["regs"][1] & 0xFF)
-    if meta["opsize"] < 64 and rexw and (raw & 0x3F) != (raw & 0x1F):
-        return "-rexw-count-mask"
     if c == 0:
         return "-count0"
     if meta["name"] in ("ROL", "ROR") and c % meta["opsize"] == 0:
